@@ -24,7 +24,7 @@ func init() {
 func runC06(c *Ctx) {
 	c.Rule("C06.R1", "cumulative-weight scan uses an exact idiom (strict comparison)", 4)
 	c.Rule("C06.R2", "draw range equals the sum of the scanned weights; single writer", 4)
-	c.Rule("C06.R3", "EDF deadline update shape: deadline += 1/weight, time advances to served deadline, min-heap order", 5)
+	c.Rule("C06.R3", "EDF deadline update shape: deadline += 1/weight from the current deadline, time advances to served deadline, min-heap order", 6)
 	c.NotDecided = append(c.NotDecided, "the WRR bounded-lag inequality |n_i/w_i - n_j/w_j| <= 1/w_i + 1/w_j (numeric property of float deadlines)", "uniformity of math/rand")
 	c.Assumptions = append(c.Assumptions, "(*rand.Rand).Intn(n) returns a value in [0,n)")
 
@@ -355,6 +355,34 @@ func runC06R3(c *Ctx) {
 			good = lok && isCall && (f == "deadline" || (f == "currentTime" && ctStore != nil && instrDominates(ctStore, dlStore)))
 		}
 		c.Check("C06.R3", fk+":deadline-update", dlStore.Pos(), good, "deadline = deadline + 1/weightFunc(item)", "served entry's deadline is not advanced by exactly 1/weight: hosts are no longer served in proportion to their weights")
+		// the deadline that is advanced is the entry's *current* deadline: no statically known writer of
+		// edfEntry.deadline runs between the load and the store (a stale copy re-queues the entry far away from the others)
+		if ok {
+			if ld, isLd := x.(*ssa.UnOp); isLd {
+				var writer ssa.Instruction
+				for _, cs := range callsIn(nap, false, func(cc *ssa.CallCommon) bool { return cc.StaticCallee() != nil }) {
+					writes := false
+					for f := range staticReach([]*ssa.Function{cs.Instr.Common().StaticCallee()}, "pkg/upstream/cluster") {
+						if len(storesToField(f, ".edfEntry", "deadline", false)) > 0 {
+							writes = true
+						}
+					}
+					if !writes {
+						continue
+					}
+					k := cs.Instr
+					if existsPath(nap, ld, func(in ssa.Instruction) bool { return in == k }, nil) != nil &&
+						existsPath(nap, k, func(in ssa.Instruction) bool { return in == ssa.Instruction(dlStore) }, nil) != nil {
+						writer = k
+					}
+				}
+				pos := dlStore.Pos()
+				if writer != nil {
+					pos = writer.Pos()
+				}
+				c.Check("C06.R3", fk+":deadline-not-stale", pos, writer == nil, "no writer of the deadlines runs between reading and advancing the served entry's deadline", "the served entry is advanced from a copy of its deadline taken before a call that rewrites the deadlines: it is re-queued out of step with the other entries and starved, so hosts are no longer served in proportion to their weights")
+			}
+		}
 	}
 	if ctStore == nil {
 		c.Fail("C06.R3", fk+":time-advance", nap.Pos(), "NextAndPush does not advance currentTime")
